@@ -90,7 +90,18 @@ def run(ctx):
                 rb.expect(ok, '%s:free-fresh' % f.name, ev.loc, '%s frees the freshly allocated entry outside the "another entry found" branch' % f.name,
                           note='%s: duplicate freed only when another entry was found' % f.name)
                 continue
-            removes = [r for r in f.calls('parsec_hash_table_nolock_remove_handle') if f.dominates(r.point, ev.point)]
+            removes = [r for r in f.calls(('parsec_hash_table_nolock_remove_handle', 'parsec_hash_table_nolock_remove')) if f.dominates(r.point, ev.point)]
+            # the removal must sit in the same critical section as the reclaim decision: bucket lock held at
+            # the removal and never released between the guard's reads and the removal
+            guard_loads = [l for l in f.loads() if l.e.k == 'mem' and l.e.n in ('usagelmt', 'retained') and f.dominates(l.point, ev.point)]
+            unlocks = f.calls(set(LOCKS.release))
+            same_cs = []
+            for r in removes:
+                held = any(l.startswith('bucket:') for l in (ls.must_before(r) or ()))
+                gap = any(f.reaches(g.point, u_.point, acyclic=True) and f.reaches(u_.point, r.point, acyclic=True) for g in guard_loads for u_ in unlocks)
+                if held and not gap and guard_loads:
+                    same_cs.append(r)
+            removes = same_cs
             conds_ok = {'limit': False, 'retained': False}
             detail = []
             for bid in f.blocks:
@@ -133,7 +144,7 @@ def run(ctx):
                                     conds_ok['limit'] = True
             rb.expect(bool(removes) and all(conds_ok.values()), '%s:free-inserted' % f.name, ev.loc,
                       '%s frees an inserted entry without %s' % (f.name, ', '.join(
-                          (['prior removal from the table'] if not removes else []) +
+                          (['removal from the table inside the critical section of the reclaim decision'] if not removes else []) +
                           (['usagelmt == <usage count (post-value)> guard (compared with: %s)' % detail] if not conds_ok['limit'] else []) +
                           (['retained == 0 guard'] if not conds_ok['retained'] else []))),
                       note='%s: free dominated by remove + (usagelmt == count) + (retained == 0)' % f.name)
